@@ -12,12 +12,23 @@ static unsigned char b1[1 << 18], b2[1 << 18];
 static char dir[4096], fsave[4200], fload[4200], fnone[4200];
 
 static void *dupbuf(const unsigned char *p, size_t n) { unsigned char *q = malloc(n ? n : 1); memcpy(q, p, n); return q; }
-static void scribble_free(void *p, size_t n) { if (!p) return; memset(p, 0x5A, n ? n : 1); free(p); }
+/* names are handed in from addresses of varying alignment (offsets 0..3 in turn inside their block) */
+static struct { void *p, *base; } dreg[16];
+static char *dupname(const unsigned char *p, size_t n) {
+    static unsigned ctr; char *b = malloc(n + 4), *q = b + (ctr++ & 3); memcpy(q, p, n);
+    for (int i = 0; i < 16; i++) if (!dreg[i].p) { dreg[i].p = q; dreg[i].base = b; return q; }
+    memmove(b, q, n); return b;
+}
+static void scribble_free(void *p, size_t n) {
+    if (!p) return; memset(p, 0x5A, n ? n : 1);
+    for (int i = 0; i < 16; i++) if (dreg[i].p == p) { free(dreg[i].base); dreg[i].p = NULL; return; }
+    free(p);
+}
 /* a name argument: "N" = NULL, otherwise hex of a C string ("-" = empty); returned block is exact size incl. NUL */
 static char *mkname(const char *h, size_t *len) {
     if (h[0] == 'N') { *len = 0; return NULL; }
     size_t n = unhex(h, b1); b1[n] = 0; n = strlen((char *)b1);
-    *len = n + 1; return dupbuf(b1, n + 1);
+    *len = n + 1; return dupname(b1, n + 1);
 }
 static size_t hexto(char *out, size_t room, const void *p, size_t n) {
     const unsigned char *b = p; static const char hx[] = "0123456789abcdef";
